@@ -192,10 +192,25 @@ Proof.
   apply all_some_map_length in H. exact H.
 Qed.
 (* case analysis on a function id of the menu: ids 0 .. 15 one by one and a last case
-   S^16 id (the default branch of apply_fn).  The menu currently ends at 13; the two spare
-   levels fall into the default branch and are closed by the same tactics, so the menu can
+   S^16 id (the default branch of apply_fn).  The menu currently ends at 14; the spare
+   level falls into the default branch and is closed by the same tactics, so the menu can
    grow a little without the case analyses below having to be re-nested. *)
 Ltac menu_cases id := do 16 (try (destruct id as [|id]; [|])).
+(* a function of the menu may look at its argument before it decides what to return (id 14:
+   `match x with CNil :: _ => RNilRes | _ => RAny (rev x) end`); split the argument into the
+   shapes such a match distinguishes (empty / first cell by constructor) wherever the goal or
+   a hypothesis still contains a match on it, so that the match reduces; the remaining
+   occurrences of a non-empty argument are folded back into the variable (equation Earg), so
+   that the reasoning that follows sees `rev x`, `length x` as for the other functions.  Does
+   nothing for the functions that do not inspect their argument. *)
+Ltac arg_split x :=
+  let E := fresh "Earg" in let c := fresh "c" in let x' := fresh x in
+  destruct x as [|c x'] eqn:E; [|destruct c; try rewrite <- E in *].
+Ltac arg_cases x :=
+  try match goal with
+      | H : context [match x with nil => _ | cons _ _ => _ end] |- _ => arg_split x
+      | |- context [match x with nil => _ | cons _ _ => _ end] => arg_split x
+      end.
 
 (* every function of the menu that returns a []any returns as many cells as it received,
    except the two that change the length on purpose (10 shortens, 11 lengthens); the other
@@ -203,7 +218,7 @@ Ltac menu_cases id := do 16 (try (destruct id as [|id]; [|])).
 Lemma apply_fn_any_length_gen id x l : id <> 10%nat -> id <> 11%nat ->
   apply_fn id x = RAny l -> length l = length x.
 Proof.
-  menu_cases id; cbn [apply_fn]; intros H10 H11 H;
+  menu_cases id; cbn [apply_fn]; intros H10 H11 H; arg_cases x;
     try discriminate; try congruence; inversion H;
     rewrite ?rev_length, ?map_length; reflexivity.
 Qed.
